@@ -38,17 +38,24 @@ if [ "$CRASHES" -gt 0 ]; then
   for f in "$WORK"/artifacts/crash-* "$WORK"/artifacts/timeout-* "$WORK"/artifacts/oom-*; do
     [ -f "$f" ] || continue
     case "$f" in *timeout-*|*oom-*) echo "NOTE: fuzzer reported $(basename "$f") (treated as inconclusive)"; [ $CODE -eq 0 ] && CODE=2; continue;; esac
-    CASE=$("$RV" fuzzcase "$TARGET" "$f") || continue
+    FC="$TARGET"; [ "$TARGET" = twins ] && FC="twins:$ID"
+    CASE=$("$RV" fuzzcase "$FC" "$f") || continue
     OUT="$ROOT/found/$ID/fuzz-$(basename "$f" | cut -c7-22).json"
     printf '{"property":"%s","expect":"pass","note":"libFuzzer artifact %s (ASan, debug assertions)","case":%s}\n' "$ID" "$(basename "$f")" "$CASE" > "$OUT"
     if "$RV" replay "$ID" "$OUT" | grep -q "^VIOLATION"; then
       "$RV" replay "$ID" "$OUT" | grep -E "failure:|^VIOLATION"
       CODE=1
     else
-      # only the sanitizer sees it (no panic / oracle failure in the plain build): still a violation of memory safety
-      echo "  failure: [asan-or-fuzz-only] the fuzz build crashed on this input but the replay in the plain build passed; see $WORK/fuzz-*.log"
-      echo "VIOLATION property=$ID replay=$OUT"
-      CODE=1
+      if [ "$TARGET" = twins ]; then
+        # the twins target carries four oracles: the crash may belong to one of the other three properties
+        echo "NOTE: artifact $(basename "$f") of the twins campaign does not fail the $ID oracle (it belongs to another property's campaign)"
+        rm -f "$OUT"
+      else
+        # only the sanitizer sees it (no panic / oracle failure in the plain build): still a violation of memory safety
+        echo "  failure: [asan-or-fuzz-only] the fuzz build crashed on this input but the replay in the plain build passed; see $WORK/fuzz-*.log"
+        echo "VIOLATION property=$ID replay=$OUT"
+        CODE=1
+      fi
     fi
   done
 fi
